@@ -21,7 +21,8 @@ THEOREMS = {
         "C05_perfect_stderror", "C05_perfect_nsec", "C05_perfect_nnsec", "C05_perfect_alphaindex",
         "C05_perfect_dmb", "C05_perfect_mbias", "C05_perfect_derror", "C05_bound_mae", "C05_bound_rmse",
         "C05_bound_stderror", "C05_bound_nsec", "C05_bound_alphaindex", "C05_declared_perfect",
-        "C05_selectWithin", "C05_fromfield_obs_by_fcst", "C05_fromfield_fcst_by_obs", "C05_obsfcst_by_obs"]],
+        "C05_selectWithin", "C05_fromfield_obs_by_fcst", "C05_fromfield_fcst_by_obs", "C05_fromfield_empty_bin",
+        "C05_obsfcst_by_obs"]],
     "Proofs.GenEq.Det": ["VerifModel.GenEq.Det.%s_eq" % n for n in TRANSLATED],
 }
 TRUSTED_BASE = [
